@@ -32,6 +32,7 @@ func init() {
 	props["C16"] = runC16
 	props["C17"] = runC17
 	props["C16child"] = runC16Child
+	props["C16conc"] = runC16ConcChild
 	cmds[1601] = func(o *out, f [][]int) []int { return parseViaChild(o, field0(f)) }
 	cmds[1701] = execURIRoundTrip
 	cmds[1702] = execDialPlan
@@ -75,6 +76,84 @@ func runC16Child(_ *out, _ bool, _ *rng, _ []string) map[string]interface{} {
 	}
 	os.Exit(0)
 	return nil
+}
+
+// runC16ConcChild: the strings on stdin are parsed by 8 goroutines at once, before anything else in this
+// process has parsed them; then once more sequentially.  Prints "ok", or "differs <hex>" for the first string
+// whose concurrent result is not the sequential one.  A crash of the process is seen by the parent.
+func runC16ConcChild(_ *out, _ bool, _ *rng, _ []string) map[string]interface{} {
+	debug.SetMaxStack(2 << 20)
+	sc := bufio.NewScanner(os.Stdin)
+	sc.Buffer(make([]byte, 1<<20), 1<<26)
+	var inputs []string
+	for sc.Scan() {
+		inputs = append(inputs, string(bytesOf(parseField(sc.Text()))))
+	}
+	const workers = 8
+	got := make([][]string, workers)
+	var wg sync.WaitGroup
+	for w := 0; w < workers; w++ {
+		wg.Add(1)
+		got[w] = make([]string, len(inputs))
+		go func(w int) {
+			defer wg.Done()
+			for i, s := range inputs {
+				u, err := stun.ParseURI(s)
+				got[w][i] = fNums(serURI(u, err)...)
+			}
+		}(w)
+	}
+	wg.Wait()
+	for i, s := range inputs {
+		u, err := stun.ParseURI(s)
+		want := fNums(serURI(u, err)...)
+		for w := 0; w < workers; w++ {
+			if got[w][i] != want {
+				fmt.Println("differs " + fHex([]byte(s)))
+				os.Exit(0)
+			}
+		}
+	}
+	fmt.Println("ok")
+	os.Exit(0)
+	return nil
+}
+
+// concurrentParse hands the inputs to one child process that parses them from 8 goroutines at once
+func concurrentParse(o *out, inputs [][]byte) {
+	cmd := exec.Command(os.Args[0], "C16conc", "quick", "0", os.TempDir())
+	var in bytes.Buffer
+	for _, s := range inputs {
+		in.WriteString(fHex(s))
+		in.WriteByte('\n')
+	}
+	cmd.Stdin = &in
+	var outb, errb bytes.Buffer
+	cmd.Stdout, cmd.Stderr = &outb, &errb
+	done := make(chan error, 1)
+	must(cmd.Start())
+	go func() { done <- cmd.Wait() }()
+	select {
+	case <-done:
+	case <-time.After(120 * time.Second):
+		_ = cmd.Process.Kill()
+		<-done
+		o.failFor("C16", "concurrent-parse-hangs", "x "+fmt.Sprint(len(inputs))+" strings from 8 goroutines: no result in 120 s")
+		return
+	}
+	ans := strings.TrimSpace(outb.String())
+	switch {
+	case ans == "ok":
+	case strings.HasPrefix(ans, "differs "):
+		o.failFor("C16", "concurrent-parse-differs", "1601 "+strings.TrimPrefix(ans, "differs "))
+	default:
+		msg := errb.String()
+		if len(msg) > 300 {
+			msg = msg[:300]
+		}
+		o.failFor("C16", "concurrent-parse-crash", "x "+fmt.Sprint(len(inputs))+" strings parsed from 8 goroutines in one process: "+strings.ReplaceAll(msg, "\n", " | "))
+	}
+	o.countN("concurrent-parses", 8*len(inputs))
 }
 
 // parseBatch runs ParseURI over the inputs in child processes (16 in parallel, each over a contiguous
@@ -254,6 +333,17 @@ func runC16(o *out, thorough bool, r *rng, _ []string) map[string]interface{} {
 		rnd = append(rnd, append([]byte("stun:h:"), bytes.Repeat([]byte("9"), l)...))
 	}
 	emitParsed(o, rnd, "generated")
+	if crashCount.Load() == 0 {
+		// only strings short enough not to dominate; a process that crashes on some string sequentially
+		// has been reported above already
+		var short [][]byte
+		for _, s := range rnd {
+			if len(s) <= 300 {
+				short = append(short, s)
+			}
+		}
+		concurrentParse(o, short)
+	}
 	return map[string]interface{}{"exhaustive_part": fmt.Sprintf("every string of length <= %d over %d URI-significant symbols after each of the prefixes stun: stuns: turn: turns: and none: %d strings, each parsed in a child process with a 2 MiB stack limit and a watchdog", maxLen, len(uriAlphabet), total)}
 }
 
@@ -728,6 +818,58 @@ func tlsServerNameScenarios(o *out) {
 				}
 				o.count("tls-handshake-scenarios")
 			}
+		}
+	}
+	// one DialConfig used for several secure URIs in a row (with and without a ServerName preset by the
+	// caller): every handshake names the host of ITS URI, and the caller's configuration is left as it was
+	for _, preset := range []string{"", "preset.example.com"} {
+		cfg := &stun.DialConfig{TLSConfig: tls.Config{MinVersion: tls.VersionTLS12, ServerName: preset}}
+		for i, host := range []string{"first.example.org", "second.example.org", "192.0.2.7", "first.example.org"} {
+			uri := "turns:" + host + ":443?transport=tcp"
+			if i%2 == 1 {
+				uri = "stuns:" + host + ":5349"
+			}
+			u, err := stun.ParseURI(uri)
+			if err != nil {
+				continue
+			}
+			cert, pool, err := certFor(host)
+			if err != nil {
+				continue
+			}
+			pn := &pipeNet{server: make(chan net.Conn, 1)}
+			cfg.Net = pn
+			cfg.TLSConfig.RootCAs = pool
+			result := make(chan error, 1)
+			go func() {
+				select {
+				case c := <-pn.server:
+					srv := tls.Server(c, &tls.Config{Certificates: []tls.Certificate{cert}, MinVersion: tls.VersionTLS12})
+					_ = c.SetDeadline(time.Now().Add(3 * time.Second))
+					result <- srv.Handshake()
+					_ = c.Close()
+				case <-time.After(3 * time.Second):
+					result <- errors.New("never dialed")
+				}
+			}()
+			c, derr := stun.DialURI(u, cfg)
+			var herr error
+			select {
+			case herr = <-result:
+			case <-time.After(4 * time.Second):
+				herr = errors.New("timeout")
+			}
+			if c != nil {
+				_ = c.Close()
+			}
+			detail := fmt.Sprintf("x shared DialConfig (preset ServerName %q), dial #%d %s dial-error=%v handshake=%v ServerName-afterwards=%q", preset, i, uri, derr, herr, cfg.TLSConfig.ServerName)
+			if derr != nil || herr != nil {
+				o.failFor("C17", "tls-server-name-not-the-host", detail)
+			}
+			if cfg.TLSConfig.ServerName != preset {
+				o.failFor("C17", "dial-changes-callers-config", detail)
+			}
+			o.count("tls-shared-config-scenarios")
 		}
 	}
 }
